@@ -1,5 +1,5 @@
 //! Verification model of `ghash` 0.5.1. NOT GHASH: an order- and content-sensitive accumulator
-//! `y <- rotl(y ^ block, 5) + (h | 1)` with the same block/padding interface as the real crate,
+//! `y <- rotl(y ^ block, 5) ^ h` with the same block/padding interface as the real crate,
 //! so that *which bytes, in which order, padded how* is what a tag depends on.
 #![no_std]
 use generic_array::{typenum::U16, GenericArray};
@@ -33,7 +33,7 @@ impl GHash {
     }
     #[inline]
     pub fn absorb(&mut self, b: u128) {
-        self.y = (self.y ^ b).rotate_left(5).wrapping_add(self.h | 1);
+        self.y = (self.y ^ b).rotate_left(5) ^ self.h;
     }
 }
 
